@@ -1105,6 +1105,12 @@ int safec_vsnprintf_s(out_fct_type out, const char *funcname, char *buffer,
                 if (*format) {
                     unsigned off = format - startformat;
                     char *s = (char *)malloc(off + 1);
+                    if (unlikely(!s)) {
+                        invoke_safe_str_constraint_handler(
+                            "vsnprintf_s: malloc for a long double format failed",
+                            buffer, ESNOSPC);
+                        return -(ESNOSPC);
+                    }
                     memcpy(s, startformat, off);
                     s[off] = '\0';
                     idx = safec_ftoa_long(out, funcname, buffer, idx, bufsize,
@@ -1138,6 +1144,12 @@ int safec_vsnprintf_s(out_fct_type out, const char *funcname, char *buffer,
                 if (*format) {
                     unsigned off = format - startformat;
                     char *s = (char *)malloc(off + 1);
+                    if (unlikely(!s)) {
+                        invoke_safe_str_constraint_handler(
+                            "vsnprintf_s: malloc for a long double format failed",
+                            buffer, ESNOSPC);
+                        return -(ESNOSPC);
+                    }
                     memcpy(s, startformat, off);
                     s[off] = '\0';
                     idx = safec_etoa_long(out, funcname, buffer, idx, bufsize,
@@ -1166,6 +1178,12 @@ int safec_vsnprintf_s(out_fct_type out, const char *funcname, char *buffer,
                 if (*format) {
                     unsigned off = format - startformat;
                     char *s = (char *)malloc(off + 1);
+                    if (unlikely(!s)) {
+                        invoke_safe_str_constraint_handler(
+                            "vsnprintf_s: malloc for a long double format failed",
+                            buffer, ESNOSPC);
+                        return -(ESNOSPC);
+                    }
                     memcpy(s, startformat, off);
                     s[off] = '\0';
                     idx = safec_atoa_long(out, funcname, buffer, idx, bufsize,
@@ -1183,6 +1201,12 @@ int safec_vsnprintf_s(out_fct_type out, const char *funcname, char *buffer,
                 if (*format) {
                     unsigned off = format - startformat;
                     char *s = (char *)malloc(off + 1);
+                    if (unlikely(!s)) {
+                        invoke_safe_str_constraint_handler(
+                            "vsnprintf_s: malloc for a long double format failed",
+                            buffer, ESNOSPC);
+                        return -(ESNOSPC);
+                    }
                     memcpy(s, startformat, off);
                     s[off] = '\0';
                     idx = safec_atoa(out, funcname, buffer, idx, bufsize,
